@@ -40,6 +40,9 @@ type Prog struct {
 	AllFuncs  int
 	GOARCH    string
 	Roles     []string // helper functions recognised by role under a different declared name
+	bind        map[*ssa.Parameter]ssa.Value // parameters of helpers on the call chain a path search is following
+	cutMatchers map[uintptr]*cutInfo
+	flowCells   bool // origins reads local cells flow-sensitively (originsFlow)
 	curFacts  facts    // facts of the path currently examined by reachCut (read by target predicates)
 	noDescend bool     // switch the in-line exploration of helpers off (used by summaries that do their own lifting)
 }
@@ -415,12 +418,20 @@ var theProg *Prog
 // extract-function refactoring is still found where the rules look for it.
 func eachInstr(fn *ssa.Function, f func(ssa.Instruction)) {
 	seen := map[*ssa.Function]bool{fn: true}
-	var visit func(g *ssa.Function, depth int)
-	visit = func(g *ssa.Function, depth int) {
+	var saved map[*ssa.Parameter]ssa.Value
+	if theProg != nil {
+		saved = theProg.bind
+		defer func() { theProg.bind = saved }()
+	}
+	var visit func(g *ssa.Function, depth int, bind map[*ssa.Parameter]ssa.Value)
+	visit = func(g *ssa.Function, depth int, bind map[*ssa.Parameter]ssa.Value) {
 		for _, b := range g.Blocks {
 			for _, in := range b.Instrs {
 				if _, isRet := in.(*ssa.Return); isRet && depth > 0 {
 					continue // a helper's return is not a return of fn
+				}
+				if theProg != nil {
+					theProg.bind = bind
 				}
 				f(in)
 				if theProg == nil || depth >= 3 {
@@ -428,15 +439,30 @@ func eachInstr(fn *ssa.Function, f func(ssa.Instruction)) {
 				}
 				if c, ok := in.(*ssa.Call); ok {
 					if h := theProg.calleeOf(c); h != nil && theProg.isPlainHelper(h) {
-						if !seen[h] {
+						if len(theProg.callers[h]) > 1 && len(h.Params) > 0 && !seen[h] {
+							// a helper with several call sites is read once per call, its
+							// parameters standing for what that call passes
+							nb := map[*ssa.Parameter]ssa.Value{}
+							for k, v := range bind {
+								nb[k] = v
+							}
+							for i, prm := range h.Params {
+								if as := c.Common().Args; i < len(as) {
+									nb[prm] = as[i]
+								}
+							}
 							seen[h] = true
-							visit(h, depth+1)
+							visit(h, depth+1, nb)
+							delete(seen, h)
+						} else if !seen[h] {
+							seen[h] = true
+							visit(h, depth+1, bind)
 						}
 						// closures handed to the helper to be called there
 						for _, cl := range theProg.closureArgs(c, h) {
 							if !seen[cl] {
 								seen[cl] = true
-								visit(cl, depth+1)
+								visit(cl, depth+1, bind)
 							}
 						}
 					}
@@ -444,7 +470,7 @@ func eachInstr(fn *ssa.Function, f func(ssa.Instruction)) {
 			}
 		}
 	}
-	visit(fn, 0)
+	visit(fn, 0, saved)
 }
 
 // withClosures returns fn followed by all closures nested in it.
@@ -764,4 +790,26 @@ func (p *Prog) calledOnly(prm *ssa.Parameter) bool {
 		}
 	}
 	return n > 0
+}
+
+// homeOf: the function a plain helper's code belongs to, when there is exactly one (the helper is
+// read as in-line code of its callers); fn itself otherwise.
+func (p *Prog) homeOf(fn *ssa.Function) *ssa.Function {
+	top := fn
+	for top.Parent() != nil && !p.isPlainHelper(top) {
+		top = top.Parent()
+	}
+	if !p.isPlainHelper(top) {
+		return fn
+	}
+	var homes []*ssa.Function
+	for h := range p.homes(top) {
+		if !p.isPlainHelper(h) {
+			homes = append(homes, h)
+		}
+	}
+	if len(homes) == 1 {
+		return homes[0]
+	}
+	return fn
 }
